@@ -17,12 +17,14 @@ Focal(f) ==
     [] f = "failvar" -> <<T("f0"), P("ff", Var("g")), T("f1")>>
 
 MkC(par) ==
-  LET path == par[1]  f == par[2]  tk == par[3]  pk == par[4]
+  LET path == par[1]  f == par[2]  tk == par[3]  pk == par[4]  toplet == par[5]
       r    == Build(path, 1, Focal(f))
       body == IF tk = "try" THEN <<TryS("try", r.main)>> ELSE r.main
-      main == <<T("pre"), LetS("ls", "s", Lit("s0"))>> \o body \o <<T("post")>>
+      \* without the top-level := no deferred scope restore surrounds the failing construct
+      main == <<T("pre")>> \o (IF toplet THEN <<LetS("ls", "s", Lit("s0"))>> ELSE <<>>) \o body \o <<T("post")>>
+      vmA  == [NoVarsMap EXCEPT !["x3"] = "vmx3", !["q1"] = "vmq1"]
       pr   == <<T("q0"), P("qctx", Ctx), P("qs", IsSetE("s")), P("q1", IsSetE("x1")), P("q2", IsSetE("x2")),
-                P("qk", IsSetE("k")), P("qp", IsSetE("p")), P("qr", IsSetE("r")), YContent("qyc"),
+                P("qk", IsSetE("k")), P("qp", IsSetE("p")), P("qr", IsSetE("r")), P("q3", IsSetE("x3")), P("qq", IsSetE("q1")), YContent("qyc"),
                 RangeS("qr1", "none", "", "", "", ListE("slice", <<"o1", "o2">>),
                        <<RangeS("qr2", "none", "", "", "", ListE("slice", <<"i1", "i2">>), <<P("qri", Ctx)>>), P("qro", Ctx)>>),
                 RangeS("qm1", "kv", "k", "v", ":=", ListE("map", <<"m1">>),
@@ -34,11 +36,11 @@ MkC(par) ==
       lib  == Tm("lib", "", <<>>, r.bl)
   IN [ts |-> <<Tm("main", "", <<"lib">>, main), lib, probe, Tm("probe2", "", <<>>, pr)>> \o r.ts,
       globals |-> NoVarsMap,
-      runs |-> <<RunR("main", NoVarsMap, "D"), RunR("probe", NoVarsMap, Nil),
-                 RunR("main", NoVarsMap, "D"), RunR("probe", NoVarsMap, "D2")>>,
-      tag |-> PathTag(path) \o "|" \o f \o "|" \o tk \o "|" \o pk]
+      runs |-> <<RunR("main", vmA, "D"), RunR("probe", NoVarsMap, Nil),
+                 RunR("main", vmA, "D"), RunR("probe", NoVarsMap, "D2")>>,
+      tag |-> PathTag(path) \o "|" \o f \o "|" \o tk \o "|" \o pk \o (IF toplet THEN "" ELSE "|notoplet")]
 
-cParams == PathsUpTo(Kinds, Depth) \X Focals \X TryKinds \X ProbeKinds
+cParams == PathsUpTo(Kinds, Depth) \X Focals \X TryKinds \X ProbeKinds \X BOOLEAN
 
 \* the specification itself is pure: same call, same observation
 SpecPure == Done => results[1] = results[3]
